@@ -2325,7 +2325,11 @@ public:
       bool skipThen = dynamic_cast<SkipStatement*>(stmt.getThenStmt().get());
       bool skipElse = dynamic_cast<SkipStatement*>(stmt.getElseStmt().get());
       if (skipThen && skipElse) {
-        // Do nothing.
+        // Nothing to choose between, but the condition is still evaluated if
+        // it can have an effect.
+        if (cb.containsCall(stmt.getCondition())) {
+          cb.genExpr(stmt.getCondition(), currentScope);
+        }
       } else if (skipElse) {
         // No else branch.
         auto endLabel = cb.getLabel();
